@@ -9,6 +9,7 @@ gen = os.path.join(driver.ROOT, 'gen', 'survey.rs')
 rep = extract.build(gen)
 gl = open(gen).read().split('\n')
 mods = ['views::' + m for m in rep['modules']] + ['lem', 'alg', 'alg2'] + ['props::' + os.path.basename(p)[:-3] for p in sorted(os.listdir(os.path.join(driver.VF, 'props'))) if p.endswith('.rs')]
+if len(sys.argv) > 1: mods = sys.argv[1:]
 res = driver.run_verus(gen, mods, rlimit=int(os.environ.get('RLIMIT', '200')), timeout=1800)
 errs = driver.parse_stderr(res['stderr'])
 print('verus:', res['json'] and res['json']['verification-results'], 'wall %.1fs' % res['wall'])
